@@ -410,6 +410,7 @@ def check_sequence_rules(ctx, tu, se, seq, fns, file_of, tag, counts):
             evs = seq.seq_events(p, bool(f.get('const')))
             compacts = []
             consumed = set()
+            reordered = False
             for kind, name, ev in evs:
                 if id(ev) in consumed:
                     continue
@@ -418,6 +419,8 @@ def check_sequence_rules(ctx, tu, se, seq, fns, file_of, tag, counts):
                 if kind == 'member' and (name in APPEND or name in INSERT):
                     nmut += 1
                     counts['insert'] += 1
+                    if reordered:
+                        continue     # the path already reordered the sequence (reported as such): its lookup results no longer say what they did
                     args = [unver(a) for a in (ev.value or ())]
                     if name in INSERT:
                         if not args or args[0] != vend(S):
@@ -554,6 +557,7 @@ def check_sequence_rules(ctx, tu, se, seq, fns, file_of, tag, counts):
                             ctx.undecided(R2, inst, '`%s` does not run over the whole sequence' % what, l)
                             viol = True
                     elif name in ALGO_REORDER:
+                        reordered = True
                         ctx.violation(R2, inst, '`%s` reorders the sequence: iteration / at_index no longer follow insertion order' % what, l,
                                       key='%s|%s|%s|reorders:%s' % (R2, file, pname, last(name)))
                         viol = True
@@ -713,6 +717,17 @@ def check_flatmap(ctx, tu, tag=''):
                     paths = paths_of(se, f)
                 except Unsupported:
                     pass
+            # a member other than erase that reorders the stored elements: that is the finding; what such a path does afterwards with
+            # iterators obtained before the reordering is a consequence and is not judged against the role
+            if name != 'erase' and shape is None:
+                reo = [(p_, x) for p_ in paths for x in seq.seq_events(p_, bool(f.get('const'))) if x[0] == 'algo' and x[1] in ALGO_REORDER]
+                if reo:
+                    x = reo[0][1]
+                    probs.append(('unexpected-mutation', '%s%s reorders the stored elements (`%s`): iteration / at_index no longer follow first-insertion '
+                                  'order, and references handed out earlier now name other keys' %
+                                  (name, '()' if not name.startswith('operator') else '', tu.show(x[2].node))))
+                    keep_ = {id(p_) for p_, _x in reo}
+                    paths = [p_ for p_ in paths if id(p_) not in keep_]
             if name == 'at' and shape is not None:
                 n3 += 1
                 strip_copy = lambda x: se._subst(x, {}) if False else x
@@ -1321,6 +1336,30 @@ def check_paramobj(ctx, tu, tag=''):
                                       'of the value that was set' % (T, h_, tu.show(ev.node)[:120], T)))
                     else:
                         und.append(('stored-value-rvalue', 'the stored value is passed as an rvalue to `%s`' % h_))
+                # `query = data.is<T>()`: the flag is assigned the outcome of the type test instead of being set after it
+                q_is = [ev for ev in qstores if unver(ev.value) == is_t]
+                if q_is and nonnull:
+                    after = [pol for idx_, (c_, pol, _n) in enumerate(p.conds) if idx_ >= q_is[0].conds_n and unver(c_) == qplace]
+                    direct = p.cond_of(is_t)
+                    outcome = after[0] if after else direct     # a test of the flag after the store reads the value just stored
+                    if outcome is None:
+                        und.append(('query-store', '`%s` is assigned `%s` and the path does not branch on it' % (QUERY, show(is_t))))
+                    elif outcome is False:
+                        probs.append(('query-cleared-by-mismatched-read',
+                                      '`%s` assigns the outcome of the type test to `%s`: on a read with a type other than the stored one it stores false, '
+                                      'clearing the mark an earlier successful read has set - the query status must last until '
+                                      'resetAllParamQueryStatus, and a mismatched read must leave the parameter as it is'
+                                      % (tu.show(q_is[0].node), QUERY)))
+                        if rv != p1:
+                            (und if rv is None or has_unknown(rv) else probs).append(
+                                ('default-not-returned', 'on the mismatched-type path getParam returns `%s` instead of the caller\'s default' % (show(rv) if rv else p.term[0])))
+                    else:
+                        if len(qstores) != 1:
+                            und.append(('query-store', '`%s` is written %d times on the typed path' % (QUERY, len(qstores))))
+                        if rv != get_t:
+                            (und if rv is None or has_unknown(rv) else probs).append(
+                                ('wrong-result', 'a successful typed read returns `%s` instead of data.get<%s>()' % (show(rv) if rv else p.term[0], T)))
+                    continue
                 if other_stores:
                     und.append(('other-store', 'getParam writes `%s`' % show(other_stores[0].nf)))
                 qincs = [ev for ev in p.events if ev.kind == 'mutate' and ev.nf == qplace and ev.how in ('++', 'operator++')]
@@ -1420,6 +1459,24 @@ def check_paramobj(ctx, tu, tag=''):
                                   'throws, or the argument refers to the stored value itself, the previously written value is lost (Any::operator=(T) '
                                   'alone builds the new value before it lets go of the old one)' % DATA))
                     continue
+                if not assigns:
+                    # the store is skipped: recognised when the path has just found the stored value `==` the incoming one
+                    dpl_ = ('field', target, DATA)
+                    stored_ = (dpl_, ('call', '%s::get{%s}' % (ANY, T), dpl_))
+                    skip_eq = [unver(c_) for c_, pol_, _n in p.conds if pol_ is True and isinstance(unver(c_), tuple) and unver(c_)[0] == 'eq'
+                               and any(x_ in unver(c_)[1:] for x_ in stored_) and (p1 in unver(c_)[1:] or ('construct', ANY, p1) in unver(c_)[1:])]
+                    if skip_eq and T in FLOAT_KEYS:
+                        probs.append(('store-skipped-when-equal',
+                                      'setParam<%s> leaves the stored value in place when it compares equal to the new one (`%s`): operator== on the '
+                                      'payload is not identity of the value - for %s, -0.0 == +0.0 (and the stored type is the same), so after '
+                                      'set(0.0f); set(-0.0f) a read still returns +0.0: not the last value written' % (T, show(skip_eq[0]), T)))
+                        continue
+                    if skip_eq and (T in INTEGRAL_KEYS or T.startswith('std::basic_string<') or T.endswith('*') or T == 'bool'):
+                        continue      # for these payload types values that compare equal are indistinguishable: skipping the store changes nothing
+                    if skip_eq:
+                        und.append(('store-skipped-when-equal', 'setParam<%s> skips the store when the stored value compares equal to the new one; whether '
+                                    'operator== of %s is identity of the value is not decided' % (T, T)))
+                        continue
                 if len(assigns) != 1:
                     und.append(('no-single-store', 'setParam performs %d assignment(s) to a parameter value; the form is not recognised' % len(assigns)))
                     continue
